@@ -32,7 +32,11 @@ Record ncase := mkNCase {
   (* the honest node is reported banned at the last sample *)
   n_honest_banned : bool;
   (* tip height of the honest chain at the end *)
-  n_final_honest_tip : Z
+  n_final_honest_tip : Z;
+  (* a node that never answers getheaders is still connected at the last sample *)
+  n_silent_connected : bool;
+  (* some node serves a valid lighter fork *)
+  n_lighter_fork : bool
 }.
 
 Definition cp_interval := 1000.
@@ -68,9 +72,10 @@ Definition has_unprovable_liar (c : ncase) : bool :=
    getheaders the client sends for that block (lastRequested), so the client
    stops following the honest chain - although the honest peer is connected
    all the time.  Visible when the honest chain keeps growing: the block
-   header tip stays below the honest tip. *)
+   header tip stays below the honest tip and the silent peer is still
+   connected at the end. *)
 Definition has_silent_sync (c : ncase) : bool :=
-  n_silent_hdr c && n_growing c && (n_final_hdr_tip c <? n_final_honest_tip c).
+  n_silent_hdr c && n_silent_connected c && n_growing c && (n_final_hdr_tip c <? n_final_honest_tip c).
 
 (* some node lies in the cfheaders it serves *)
 Definition has_cfheaders_liar (c : ncase) : bool :=
@@ -109,8 +114,8 @@ Definition holds (c : ncase) : bool := safe c && n_converged c.
    than the stored tip and is banned for it.  Any other unsafe sample: tag 0.
    Only convergence failed: tag 15 when the scenario contains the root cause
    F15, 23 for F30 (both repaired: reported as violations again), 24 for the
-   silent sync peer, 22 when the honest chain does not grow after the
-   scenario's events (the client asks a non-sync peer for headers only when
+   silent sync peer, 22 when a node serves a lighter fork and the honest
+   chain does not grow after the scenario's events (the client asks a non-sync peer for headers only when
    that peer announces a block: without a further announcement it can stay
    on a lighter valid chain it finished syncing from another peer). *)
 Definition verdict (ic : Z * ncase) : list (Z * Z * Z * Z) :=
@@ -126,7 +131,7 @@ Definition verdict (ic : Z * ncase) : list (Z * Z * Z * Z) :=
             else [(id, 2, Z.of_nat (length (n_samples c)),
                    if has_f15 c then 15 else if has_unprovable_liar c then 23
                    else if has_silent_sync c then 24
-                   else if negb (n_growing c) then 22 else 0)]
+                   else if n_lighter_fork c && negb (n_growing c) then 22 else 0)]
   end.
 
 Definition run_cases (cs : list (Z * ncase)) : list (Z * Z * Z * Z) := flat_map verdict cs.
